@@ -34,7 +34,10 @@ GROUPS = {
     # cluster update and the whole step; PARTIAL in the named hypothesis TravOK on the traversal `traverse`
     "step": ["cluster_coins_law", "clusterUpdate_law_eq_kernel_partial", "clusterKernel_eq_components_partial",
              "step_law_eq_kernels_partial",
-             "isingStep_law_invariant_partial", "isingStep_law_invariant_partial_hb", "htrav_of_enum"],
+             "isingStep_law_invariant_partial", "isingStep_law_invariant_partial_hb", "htrav_of_enum",
+             # hypothesis-free: TravOK proved for every well-formed skeleton (Qmc.Law.travOK, QmcProofs/LawTravOK.lean)
+             "clusterUpdate_law_eq_kernel", "step_law_eq_kernels", "isingStep_law_invariant",
+             "isingStep_law_invariant_hb"],
     # non-vacuity facts used by the examples
     "example": ["Example.exB_legal", "Example.exB_mem_legal", "Example.H_wf", "Example.exB_travOK",
                 "Example.spec3_trav2"],
